@@ -186,4 +186,37 @@ def inplace_on_parameter_views(f: FuncInfo) -> List[dict]:
             seen += 1
         if isinstance(r, ast.Name) and r.id in params and all(d.kind == "param" for d in rd.defs_of(r)):
             out.append(dict(node=n, param=r.id))
+    # `v -= k` / `v[i] += k` on a tensor is in place too: reported when `v` is a VIEW of a parameter annotated as a tensor (basic indexing,
+    # view(), transpose() ... of it, directly or through single-definition locals) - a bare integer parameter re-bound by `n += 1` is not
+    tensor_params = {x.arg for x in list(a.args) + list(a.kwonlyargs) if x.annotation is not None and "Tensor" in ast.unparse(x.annotation)}
+    for n in own_nodes(f.node):
+        if not (isinstance(n, ast.AugAssign) and isinstance(n.op, (ast.Add, ast.Sub, ast.Mult, ast.Div, ast.FloorDiv, ast.Mod, ast.Pow, ast.BitAnd, ast.BitOr))):
+            continue
+        if rd is None:
+            from sa.defuse import ReachingDefs
+            rd = ReachingDefs(f.node)
+        t = n.target
+        load = ast.parse(ast.unparse(t), mode="eval").body if not isinstance(t, ast.Name) else None
+        r = _alias_root(load) if load is not None else t
+        if not isinstance(r, ast.Name):
+            continue
+        # (a Name parsed out of a subscripted target carries no reaching definitions of its own: they are looked up at the statement)
+        steps, cur = 0, r
+        while isinstance(cur, ast.Name) and steps < 6:
+            defs = list(rd.defs_of(cur)) if (load is None or cur is not r) else _defs_at(rd, n, cur.id)
+            if cur.id in tensor_params and defs and all(d.kind == "param" for d in defs):
+                out.append(dict(node=n, param=cur.id))
+                break
+            if len(defs) != 1 or defs[0].kind != "assign" or defs[0].value is None:
+                break
+            nxt = _alias_root(defs[0].value)
+            if nxt is defs[0].value and not isinstance(nxt, ast.Name):
+                break  # (a computed value - a tensor of its own)
+            cur = nxt
+            steps += 1
     return out
+
+
+def _defs_at(rd, stmt, name):
+    env = rd.stmt_env_in.get(id(stmt), {})
+    return list(env.get(name, ()))
